@@ -430,6 +430,22 @@ Qed.
 Lemma dispatch_agree : name_rdata_types = validate_name_types.
 Proof. reflexivity. Qed.
 
+(* source ties: the regenerated tables of parse_type / parse_rdata / Rdata::validate are the ones modelled *)
+Lemma refused_types_val : refused_types = [TYPE_NULL; TYPE_OPT; TYPE_TSIG].
+Proof. reflexivity. Qed.
+Lemma rdata_dispatch_val : rdata_dispatch =
+  [(TYPE_PTR, None); (TYPE_A, Some CLASS_IN); (TYPE_A, Some CLASS_CH); (TYPE_SOA, None); (TYPE_WKS, Some CLASS_IN);
+   (TYPE_HINFO, None); (TYPE_MINFO, None); (TYPE_MX, None); (TYPE_TXT, None); (TYPE_AAAA, Some CLASS_IN);
+   (TYPE_SRV, Some CLASS_IN)].
+Proof. reflexivity. Qed.
+Lemma validate_dispatch_val : validate_dispatch =
+  [(TYPE_A, Some CLASS_IN); (TYPE_A, Some CLASS_CH); (TYPE_SOA, None); (TYPE_WKS, Some CLASS_IN); (TYPE_HINFO, None);
+   (TYPE_MINFO, None); (TYPE_MX, None); (TYPE_TXT, None); (TYPE_AAAA, Some CLASS_IN); (TYPE_SRV, Some CLASS_IN);
+   (TYPE_OPT, None); (TYPE_TSIG, None)].
+Proof. reflexivity. Qed.
+Lemma limits_val : MAX_READ_FIELD_SIZE = 65536%N /\ INCLUDE_PATH_MAX = 65536%N.
+Proof. split; reflexivity. Qed.
+
 Definition type_allowed (t : N) : Prop := t <> TYPE_NULL /\ t <> TYPE_OPT /\ t <> TYPE_TSIG.
 
 Lemma safe_parse_rdata c class t : ctx_ok c -> type_allowed t ->
